@@ -5,7 +5,7 @@ OCAML = S.OCAML
 GO = S.GO
 FAMILIES = "reload,mixed,big".split(",")
 PROP = "props/C05.v"
-PROOFS = ["proofs/SupInv.v"]
+PROOFS = ["proofs/SupInv.v", "proofs/SupStop.v", "proofs/SupReload.v"]
 
 
 def run(run):
